@@ -143,7 +143,9 @@ func (va ClawbackVestingAccount) GetVestingPeriods() sdkvesting.Periods {
 
 // Validate checks for errors on the account fields
 func (va ClawbackVestingAccount) Validate() error {
-	if va.GetStartTime() >= va.GetEndTime() {
+	// start == end is legitimate: after a clawback only grants that vested and
+	// unlocked at their very start may remain, and all their events are due at start
+	if va.GetStartTime() > va.GetEndTime() {
 		return errors.New("vesting start-time must be before end-time")
 	}
 
